@@ -47,14 +47,15 @@ NoPrior == P(NoT, NoT, NoT)
 
 (* ------------------------------ comparison ------------------------------ *)
 Ints   == {IntT(0), IntT(1), IntT(-1), IntT(2), IntE(1, 62), IntE(-1, 63), IntE(1, 40), IntT(1073741823)}
+(* (2^64, -2^64, 2^70: whole-valued floats outside the i64 range) *)
 Flts   == {Flt(0, 0), FltS("-0"), Flt(1, 0), Flt(-1, 0), Flt(1, -1), Flt(3, -1), Flt(-3, -1),
-           Flt(1, 62), Flt(1, -20), Flt(5, -2), Flt(1, 40)}
+           Flt(1, 62), Flt(1, -20), Flt(5, -2), Flt(1, 40), Flt(1, 64), Flt(-1, 64), Flt(1, 70), Flt(-1, 63), Flt(1, 63)}
 Atoms  == {a, b, Atom("ab"), Atom("B"), Atom("a b"), Atom("{U+00E9}"), Atom("{U+65E5}"), Atom("z"),
            Atom("10"), Atom("a{U+00E9}")}
 NonC   == {Y, Cx("f", <<a>>), Lst(<<a>>), Anon, EmptyList}
 Oprs   == Ints \cup Flts \cup Atoms \cup NonC
 OprsQ  == {IntT(0), IntT(1), IntT(-1), IntE(1, 62), IntE(-1, 63), Flt(0, 0), FltS("-0"), Flt(1, 0),
-           Flt(3, -1), Flt(-3, -1), Flt(1, 62), a, b, Atom("ab"), Atom("B"), Atom("a b"), Atom("{U+00E9}"),
+           Flt(3, -1), Flt(-3, -1), Flt(1, 62), Flt(-1, 64), Flt(1, 63), Flt(-1, 63), a, b, Atom("ab"), Atom("B"), Atom("a b"), Atom("{U+00E9}"),
            Atom("10"), Y, Cx("f", <<a>>), Anon}
 CmpOprs == IF Thorough THEN Oprs ELSE OprsQ
 CmpCalls ==
@@ -119,9 +120,10 @@ FunCalls ==
 (* (k markers, k arguments), or concatenates when there is no marker, showing    *)
 (* each argument's bound value                                                   *)
 (* an argument's own text may look like a marker: it is shown, never substituted into *)
-PrArgs   == {a, b, IntT(7), IntT(-1), X, Z, Atom("hello world"), Atom("%s"), Atom("100%")}
+PrArgs   == {a, b, IntT(7), IntT(-1), X, Z, Atom("hello world"), Atom("%s"), Atom("100%"),
+             Cx("f", <<a, IntT(7)>>), Cx("h", <<>>), Lst(<<a, Lst(<<b>>), EmptyList>>), EmptyList, Y}
 PrArgsQ  == {a, IntT(7), X, Z, Atom("%s")}
-PrPriors == {P(a, NoT, X), P(IntT(3), NoT, b)}
+PrPriors == {P(a, Lst(<<a, Cx("f", <<b>>)>>), X), P(IntT(3), Cx("g", <<Lst(<<a>>), IntT(1)>>), b)}
 Fm(s) == Atom(s)
 PrCalls ==
     LET A == IF Thorough THEN PrArgs ELSE PrArgsQ IN
@@ -132,7 +134,8 @@ PrCalls ==
   \cup {[f |-> "print", args |-> <<x, y>>, prior |-> p] : x \in PrArgs, y \in PrArgs, p \in PrPriors}
   \cup {[f |-> "print", args |-> <<x, y, z>>, prior |-> P(a, NoT, X)] : x \in A, y \in A, z \in A}
   \cup {[f |-> "print_list", args |-> <<l>>, prior |-> p] :
-           l \in {EmptyList, Lst(<<a>>), Lst(<<a, b, IntT(7)>>), Lst(<<X, b>>), Lst(<<Z, X, Z>>), LstT(<<a>>, Y), X, Lst(<<Atom("hello world"), IntT(-1)>>)},
+           l \in {EmptyList, Lst(<<a>>), Lst(<<a, b, IntT(7)>>), Lst(<<X, b>>), Lst(<<Z, X, Z>>), LstT(<<a>>, Y), X, Lst(<<Atom("hello world"), IntT(-1)>>),
+                  Lst(<<Cx("f", <<a>>), Lst(<<a, b>>), EmptyList>>), Y},
            p \in PrPriors \cup {P(Lst(<<a, b>>), Lst(<<b, Atom("c")>>), NoT), P(b, EmptyList, X)}}
   \cup {[f |-> "nl", args |-> <<>>, prior |-> NoPrior]}
 
